@@ -272,7 +272,13 @@ def check_cache(case):
                 continue
             fresh = NucleationBarrierParameters(site=state["site"], gamma=state["gamma"], gbEnergy=state["gb"])
             for name in ("GBk", "areaFactor", "volumeFactor", "gbRemoval", "areaRemoval"):
-                a, b = float(getattr(nuc, name)), float(getattr(fresh, name))
+                b = float(getattr(fresh, name))
+                try:
+                    a = float(getattr(nuc, name))
+                except ValueError as e:
+                    # the generated state is admissible (a fresh object accepts it): a refusal comes from a stale cached ratio
+                    out.fail("stale_factor", "after %d setter calls reading %s raised %s although a fresh object with site=%s gamma=%r gbEnergy=%r gives %r" % (changes, name, str(e)[:160], state["site"], state["gamma"], state["gb"], b), factor=name)
+                    return out
                 if not math.isclose(a, b, rel_tol=1e-12, abs_tol=1e-300):
                     out.fail("stale_factor", "after %d setter calls %s = %r, a fresh object with site=%s gamma=%r gbEnergy=%r gives %r" % (changes, name, a, state["site"], state["gamma"], state["gb"], b), factor=name)
             dG = 1e8
